@@ -45,6 +45,11 @@ pub fn extra_bases() -> Vec<(String, String)> {
             "env {\n    m: Int,\n}\nparty tip_slot_owner;\nasset tip_slot = 0xABCDEF1234ABCDEF1234ABCDEF1234ABCDEF1234ABCDEF1234ABCDEF1234.\"T\";\ntype D {\n    n: Int,\n    m: Int,\n    k: Int,\n}\ntype Inner {\n    A { x: Int, },\n    B { y: Int, },\n}\ntype Outer {\n    A { i: Inner, },\n    B { d: D, },\n    OnlyOuter { y: Int, },\n}\ntx t(xs: List<Int>, n: Int) {\n    locals {\n        k: n + 1,\n    }\n    input src {\n        from: tip_slot_owner,\n        min_amount: tip_slot(n),\n    }\n    output {\n        to: tip_slot_owner,\n        amount: src - fees,\n        datum: Outer::B {\n            d: D {\n                n: xs[n],\n                m: m,\n                k: k,\n            },\n        },\n    }\n    output {\n        to: tip_slot_owner,\n        amount: Ada(1),\n        datum: Outer::A {\n            i: Inner::B {\n                y: n,\n            },\n        },\n    }\n}\n".into(),
         ),
         (
+            // definitions made of definitions: a chain of policies that ends in an env var, and one that ends in a literal
+            "base_definition_chain".into(),
+            "env {\n    h: Bytes,\n}\nparty A;\npolicy P {\n    hash: h,\n}\npolicy Q {\n    hash: P,\n}\npolicy R {\n    hash: Q,\n}\npolicy L0 = 0xABCDEF1234ABCDEF1234ABCDEF1234ABCDEF1234ABCDEF1234ABCDEF1234;\npolicy L1 {\n    hash: L0,\n}\ntx t(q: Int) {\n    input src {\n        from: A,\n        min_amount: Ada(q),\n    }\n    output {\n        to: R,\n        amount: src - fees,\n    }\n    output {\n        to: L1,\n        amount: Ada(q),\n    }\n    mint {\n        amount: AnyAsset(Q, \"T\", q),\n        redeemer: (),\n    }\n}\n".into(),
+        ),
+        (
             "base_certs".into(),
             "party A;\ntx t(n: Int) {\n    input i {\n        from: A,\n        min_amount: Ada(n),\n    }\n    output {\n        to: A,\n        amount: i - fees,\n    }\n    cardano::vote_delegation_certificate {\n        drep: 0x12345678,\n        stake: 0x87654321,\n    }\n    cardano::publish {\n        to: A,\n        amount: Ada(n),\n        version: 3,\n        script: 0x4E4D01,\n    }\n}".into(),
         ),
@@ -180,6 +185,109 @@ pub fn judge(src: &str, family: &str, o: &mut Outcome) {
     trace(if ok { "lowered" } else { "not-lowerable" }, src);
 }
 
+/// E2 over the facade: every sequence of `parse` / `analyze` / `lower` calls of length <= 4 on one `Workspace`
+/// (re-executed from a fresh instance, the facade cannot be copied). For an accepted program every call returns Ok and
+/// whenever `lower` ran the templates are the ones a straight parse / analyze / lower gives; for a refused one `lower`
+/// answers with the analysis report. States = (ast held, report held, templates held) after each prefix.
+fn judge_facade_sequences(src: &str, o: &mut Outcome) {
+    use crate::common::canon::canon_tir;
+    let started = std::time::Instant::now();
+    let Ok(Ok(mut program)) = panics::catch(|| tx3_lang::parsing::parse_string(src)) else {
+        o.class("sequences:not-parseable");
+        return;
+    };
+    let Ok(rep) = panics::catch(|| tx3_lang::analyzing::analyze(&mut program)) else { return };
+    // some examples take a second to analyse (the analysed tree holds copies of copies): they get the sequences of
+    // length <= 2 only, the others all 120 of length <= 4
+    let max_depth = if started.elapsed().as_millis() > 40 { 2 } else { 4 };
+    let accepted = rep.errors.is_empty();
+    let names: Vec<String> = program.txs.iter().map(|t| t.name.value.clone()).collect();
+    let reference: Vec<Option<String>> = names
+        .iter()
+        .map(|n| if accepted { panics::catch(|| tx3_lang::lowering::lower(&program, n)).ok().and_then(|r| r.ok()).map(|t| canon_tir(&t).to_string()) } else { None })
+        .collect();
+    if accepted && reference.iter().any(|r| r.is_none()) {
+        // not lowerable at all: reported by the plain check
+        o.class("sequences:accepted-not-lowerable");
+        return;
+    }
+    const OPS: [&str; 3] = ["parse", "analyze", "lower"];
+    let mut states = std::collections::BTreeSet::new();
+    let mut sequences = 0u64;
+    let mut seqs: Vec<Vec<usize>> = vec![vec![]];
+    for _depth in 0..max_depth {
+        let mut next = vec![];
+        for prefix in &seqs {
+            for op in 0..3 {
+                let mut s = prefix.clone();
+                s.push(op);
+                next.push(s);
+            }
+        }
+        for seq in &next {
+            sequences += 1;
+            o.evals += 1;
+            let shown: Vec<&str> = seq.iter().map(|i| OPS[*i]).collect();
+            let run = panics::catch(|| {
+                let mut ws = tx3_lang::Workspace::from_string(src.to_string());
+                let mut results = vec![];
+                for op in seq {
+                    let r = match *op {
+                        0 => ws.parse(),
+                        1 => ws.analyze(),
+                        _ => ws.lower(),
+                    };
+                    results.push(r.map_err(|e| match &e {
+                        tx3_lang::Error::Lowering(le) => format!("Lowering:{}", lower_err_signature(le)),
+                        tx3_lang::Error::Parsing(_) => "Parsing".to_string(),
+                        tx3_lang::Error::Analyzing(_) => "Analyzing".to_string(),
+                        _ => "other".to_string(),
+                    }));
+                }
+                let tirs: Vec<Option<String>> = names.iter().map(|n| ws.tir(n).map(|t| canon_tir(t).to_string())).collect();
+                (results, ws.ast().is_some(), ws.analisis().is_some(), tirs)
+            });
+            match run {
+                Err(p) => o.violate(Violation::new(format!("facade-sequence-{}", p.signature()), format!("{shown:?} panicked: {}", crate::engine::first_line(&p.message, 160)))),
+                Ok((results, has_ast, has_report, tirs)) => {
+                    states.insert((has_ast, has_report, tirs.iter().any(|t| t.is_some())));
+                    for (k, r) in results.iter().enumerate() {
+                        let op = OPS[seq[k]];
+                        let fine = match (accepted, op, r) {
+                            (_, "parse", Ok(())) | (_, "analyze", Ok(())) | (true, "lower", Ok(())) => true,
+                            (false, "lower", Err(e)) if e == "Analyzing" => true,
+                            _ => false,
+                        };
+                        if !fine {
+                            let what = match r {
+                                Ok(()) => "Ok".to_string(),
+                                Err(e) => e.clone(),
+                            };
+                            o.violate(Violation::new(
+                                format!("facade-sequence|{}|{op}-answers-{}", if accepted { "accepted-program" } else { "refused-program" }, what.split('|').take(3).collect::<Vec<_>>().join("|")),
+                                format!("after {:?} the call {op} answered {what}", &shown[..k]),
+                            ));
+                            break;
+                        }
+                    }
+                    // templates are current when `lower` ran after the last `parse`; a later `parse` may keep or drop them
+                    let last_parse = seq.iter().rposition(|op| *op == 0);
+                    let last_lower = seq.iter().rposition(|op| *op == 2);
+                    let current = matches!((last_lower, last_parse), (Some(l), Some(p)) if l > p) || (last_lower.is_some() && last_parse.is_none());
+                    let dropped = tirs.iter().all(|t| t.is_none());
+                    if accepted && last_lower.is_some() && results.iter().all(|r| r.is_ok()) && tirs != reference && (current || !dropped) {
+                        o.violate(Violation::new("facade-sequence|templates-differ-from-a-straight-run", format!("after {shown:?} the workspace holds other templates than parse / analyze / lower gives")));
+                    }
+                }
+            }
+        }
+        seqs = next;
+    }
+    o.count("facade_sequences", sequences);
+    o.max("facade_states", states.len() as u64);
+    o.class(format!("sequences:{}-program(depth {max_depth})", if accepted { "accepted" } else { "refused" }));
+}
+
 /// maintenance aid: VERIF_C13_TRACE=<dir> appends "<class>\t<source as JSON string>" per judged program
 fn trace(class: &str, src: &str) {
     if let Ok(dir) = std::env::var("VERIF_C13_TRACE") {
@@ -200,9 +308,9 @@ impl Prop for C13 {
     }
     fn rule(&self, tier: Tier) -> String {
         format!(
-            "every source of the C12 enumeration ({}) + over the corpus (examples + 2 feature bases): every identifier token x (every other identifier \
+            "every source of the C12 enumeration ({}) + over the corpus (examples + 8 feature bases): every identifier token x (every other identifier \
              of the program + 10 built-in names); every call arity -> 0 and +1; every line deleted / duplicated; every hex / string / number literal \
-             malformed; local chains of every length 1..16 (x2 tails). Oracle: analyze(p).errors empty => lowering::lower Ok for every tx and \
+             malformed; local chains of every length 1..16 (x2 tails); explicit-state exploration of the facade: every sequence of Workspace::parse / analyze / lower of length <= 4 on one instance, for every program of the corpus as it stands (every call Ok and current templates = those of a straight run on an accepted program; lower = the analysis report on a refused one). Oracle: analyze(p).errors empty => lowering::lower Ok for every tx and \
              Workspace::lower returns Ok without panicking. Non-trivial = the analyzer accepted the program (so lowering was judged); distinct = distinct sources.",
             c12::C12.bound(tier)
         )
@@ -230,6 +338,11 @@ impl Prop for C13 {
             if m == 1 {
                 sink.case(|| json!({"kind": name, "judge_cycle": true, "src": src}));
             }
+        }
+        // the facade as a state machine, over every program of the corpus as it stands (accepted ones, and the refused
+        // `semantic_errors`)
+        for (name, src) in corpus(Tier::Thorough) {
+            sink.case(|| json!({"kind": "facade-sequences", "file": name, "src": src}));
         }
         for n in 1..=16usize {
             for p in [false, true] {
@@ -355,6 +468,11 @@ impl Prop for C13 {
         if c12::reference_cycle_can_grow(src) {
             // analysis cost explodes on self-referring locals / inputs: C12's open finding, not re-litigated here
             o.class("skipped-reference-cycle(C12)");
+            return o;
+        }
+        if case["kind"] == "facade-sequences" {
+            judge_facade_sequences(src, &mut o);
+            o.key(hash64(&("sequences", src)));
             return o;
         }
         let family = if case["kind"].as_str().unwrap_or("").starts_with("grammar") { "grammar" } else { "corpus" };
